@@ -372,6 +372,24 @@ def np_concatenate(it, arrs, axis=0, **k):
     return LArr((offs[-1],), elem, A._result_kind(ls))
 
 
+def _tri(which):
+    def f(it, a, k=0):
+        a = a if is_arr(a) else to_carr(a)
+        if not isinstance(a, CArr) or a.ndim != 2:
+            raise Unsupported(f'np.{which} on a symbolic-shape array')
+        out = a.data.copy()
+        for i in range(a.shape[0]):
+            for j in range(a.shape[1]):
+                if (which == 'tril' and j - i > conc(k)) or (which == 'triu' and j - i < conc(k)):
+                    out[i, j] = zero_of(a.kind)
+        return CArr(out, a.kind)
+    return f
+
+
+NP[('np', 'tril')] = _tri('tril')
+NP[('np', 'triu')] = _tri('triu')
+
+
 @np_fn('ix_')
 def np_ix_(it, *seqs):
     """open mesh from 1-D index sequences (numpy's own construction on concrete indices; a symbolic boolean mask is case-split first)"""
@@ -1759,6 +1777,14 @@ def _sparse_attr(it, o, attr):
             # scipy returns an np.matrix: (n,1) for axis=1, (1,m) for axis=0
             return CArr(r.data.reshape((-1, 1)) if axis in (1, -1) else r.data.reshape((1, -1)))
         return B(ssum)
+    if attr in ('row', 'col', 'data') and o.fields['sparse_format'] == 'coo':
+        # COO triplets of the dense-backed model: every position is stored (explicit zeros are legal in scipy), row-major
+        n_, m_ = d.shape
+        if attr == 'row':
+            return CArr(np.array([i for i in range(n_) for _ in range(m_)], dtype=object), 'int')
+        if attr == 'col':
+            return CArr(np.array([j for _ in range(n_) for j in range(m_)], dtype=object), 'int')
+        return CArr(np.array(list(d.data.reshape(-1)), dtype=object), d.kind)
     if attr == 'real':
         return _mk_sparse(elementwise(it.ctx, V.real_part, d), o.fields['sparse_format'])
     if attr == 'imag':
